@@ -205,7 +205,9 @@ def finish(ctx, meta, cmdline):
         'rules': {r: {'instances': len(per_rule[r]),
                       'failing': len([o for o in per_rule[r] if not o.ok])}
                   for r in rules},
-        'decided_clauses': meta.get('decided', []),
+        'decided_clauses': ['D0 no unresolvable name in the modules the '
+                            'property is anchored in (NameError on a path)']
+        + list(meta.get('decided', [])),
         'undecided_clauses': meta.get('undecided', []),
         'advisories': ctx.advisories,
         'known_findings_matched': [o.key for o in listed],
